@@ -144,7 +144,7 @@ theorem add_variable_group_block_eq (s : FState) (nv : Nat) (ranges : List Nat) 
     congr 2
 
 /-- `new_block(V, label=…)` with one positive range and a label that formats -/
-theorem new_block_one_eq (s : FState) (nv : Nat) (hs : s.numvar = nv) (V : Nat) (hV : 0 < V) :
+theorem new_block_one_eq (s : FState) (nv : Nat) (hs : s.numvar = nv) (V : Nat) :
     VariablesManager.new_block s [(V : Int)] (Except.ok ()) =
       Except.ok (blockSelf nv [V], { s with numvar := ((nv + V : Nat) : Int) }) := by
   unfold VariablesManager.new_block
